@@ -17,6 +17,8 @@ func checkC06(c *Ctx) {
 	byteOrderRule(c, "C06-K7", []string{"dhcpv4", "dhcpv6", "iana", "rfc1035label"}, 50)
 	r := c.R
 	r.Decides = append(r.Decides,
+		"K10 the messages the four top-level decoders return share no memory with the datagram (E3 retention, shared C08-K1): what a second encode emits cannot depend on the caller's receive buffer",
+		"K9 no decoder method rewrites what it has decoded through a step that sees none of the input (a call after the first read that receives the receiver or a value loaded from it, nothing derived from the input, and writes memory reachable from it: de-duplicating, sorting, trimming a decoded list)",
 		"K1 every decoder slot lands in a field the encoder writes back from, with the same width and an inverse transform (shared with C01-K1/C02-K2: wire-schema symmetry), except the allowed normalisations",
 		"K2 every decode transform is injective on the wire domain or range-guarded: net.CIDRMask(x, bits) applied to a wire value is dominated by x <= bits (else the decoder returns an error); contradiction rule across siblings (dhcpv4 Route guards its mask length)",
 		"K3 label sets keep and re-emit their original bytes while unmodified (shared with C19-K1)",
@@ -31,6 +33,28 @@ func checkC06(c *Ctx) {
 	// the value decoded for an option code is exactly the concatenation of the bytes consumed for it (shared C01-K4): a
 	// decoder that stores views of the packet and appends later fragments in place rewrites neighbouring options
 	c09Reassembly2(c, "C06-K8")
+	decoderPostProcessing(c, "C06-K9")
+	// decode→encode→decode compares the message the caller holds after the first decode: it shares no memory with the
+	// datagram it was read from, so reusing the receive buffer cannot change what the second encode emits (shared C08-K1)
+	for _, nm := range []string{"dhcpv6.FromBytes", "dhcpv6.MessageFromBytes", "dhcpv6.RelayMessageFromBytes", "dhcpv4.FromBytes"} {
+		f := c.P.Func(modPath + "/" + nm)
+		if f == nil {
+			r.Undecided("C06-K10", nm, "-", "not found")
+			continue
+		}
+		bad := false
+		for _, x := range getE3(c).retentionFindings(f, 0) {
+			bad = true
+			if strings.HasPrefix(x.short, "UNDECIDED") {
+				r.Undecided("C06-K10", nm+": "+x.short, x.pos, x.detail)
+			} else {
+				r.Violation("C06-K10", nm+": the decoded message aliases its input ("+x.short+")", x.pos, x.detail)
+			}
+		}
+		if !bad {
+			r.OK("C06-K10", nm+": the decoded message shares no memory with its input", c.P.pos(f.Pos()), "E3: flows(Pd/Pr(input)) = ∅", "")
+		}
+	}
 }
 
 // c06CIDR: K2
